@@ -1,10 +1,10 @@
 package harness
 
 import (
-	"sort"
 	"encoding/hex"
 	"fmt"
 	"math/rand/v2"
+	"sort"
 	"time"
 
 	"github.com/vmware/go-ipfix/pkg/collector"
